@@ -193,12 +193,13 @@ func (s *Service) Query(inputs []*requests.Request) ([]map[string]interface{}, e
 			errs = gqlerrors.ErrorList{{Message: "response from " + s.Addr + " contains neither data nor errors"}}
 			s.FaultsApplied++
 		case "nonode":
-			if _, ok := data["node"]; ok {
+			// only the answer to a Relay lookup: a root field that merely answers under the key `node` is not one
+			if _, ok := data["node"]; ok && strings.Contains(in.Query, "node(id:") {
 				delete(data, "node")
 				s.FaultsApplied++
 			}
 		case "node_not_map":
-			if _, ok := data["node"]; ok {
+			if _, ok := data["node"]; ok && strings.Contains(in.Query, "node(id:") {
 				data["node"] = "oops"
 				s.FaultsApplied++
 			}
